@@ -6,10 +6,10 @@
 //! serde(skip) on fields and variants, serde(rename), rename_all, serde_bytes, Range fields.
 use crate::rng::Rng;
 use rustdoc_types::*;
-use serde::Serialize;
+use serde::{Deserialize, Serialize};
 use std::collections::HashMap;
 
-#[derive(Clone, Debug, Serialize)]
+#[derive(Clone, Debug, Serialize, Deserialize)]
 pub enum Ty {
     Prim(String),
     Str,
@@ -21,7 +21,7 @@ pub enum Ty {
     Range(String),
 }
 
-#[derive(Clone, Debug, Serialize)]
+#[derive(Clone, Debug, Serialize, Deserialize)]
 pub struct Field {
     pub name: String,
     pub ty: Ty,
@@ -30,14 +30,14 @@ pub struct Field {
     pub bytes: bool,
 }
 
-#[derive(Clone, Debug, Serialize)]
+#[derive(Clone, Debug, Serialize, Deserialize)]
 pub enum VBody {
     Plain,
     Tuple(Vec<Field>),
     Struct(Vec<Field>),
 }
 
-#[derive(Clone, Debug, Serialize)]
+#[derive(Clone, Debug, Serialize, Deserialize)]
 pub struct Variant {
     pub name: String,
     pub skip: bool,
@@ -45,7 +45,7 @@ pub struct Variant {
     pub body: VBody,
 }
 
-#[derive(Clone, Debug, Serialize)]
+#[derive(Clone, Debug, Serialize, Deserialize)]
 pub enum Body {
     Unit,
     Plain(Vec<Field>),
@@ -53,7 +53,7 @@ pub enum Body {
     Enum(Vec<Variant>),
 }
 
-#[derive(Clone, Debug, Serialize)]
+#[derive(Clone, Debug, Serialize, Deserialize)]
 pub struct TypeDef {
     pub name: String,
     pub rename: Option<String>,
@@ -63,7 +63,7 @@ pub struct TypeDef {
     pub in_dep: bool,
 }
 
-#[derive(Clone, Debug, Serialize)]
+#[derive(Clone, Debug, Serialize, Deserialize)]
 pub struct Spec {
     pub types: Vec<TypeDef>,
     pub event: usize,
